@@ -66,6 +66,14 @@ def run(chk, facts, tier):
             chk.instance('encrypted-needs-start-enc-req', fn, '%s(%s)' % (c.cn, 'true' if c.args() else ''), ok,
                          '' if ok else 'LL_START_ENC_RSP is accepted although the peripheral never sent LL_START_ENC_REQ with a key (flags set with the key: %s): an unsolicited LL_START_ENC_RSP makes the link count as encrypted' % sorted(good_flags),
                          node=c, key=c.cn)
+        # a new LL_ENC_REQ starts the procedure over: what an earlier request had reached (LL_START_ENC_REQ sent for ITS key) does not carry over
+        clr = [st for tgt, op, val, st in stores(fn.body) if target_name(tgt) in good_flags and op == '=' and cval(val) == 0
+               and any(op2 == '==' and is_name(l, 'opcode') and not isinstance(r, int) and strip_casts(r).n == 'LL_ENC_REQ' for l, op2, r in guard_atoms(fn, st))]
+        req_sites = [c for c in fn.body.calls('find_key')]
+        okn = len(req_sites) == 1 and any(sorted((cnd.i, str(o)) for cnd, o in fn.guards(st)) == sorted((cnd.i, str(o)) for cnd, o in fn.guards(req_sites[0])) for st in clr)
+        chk.instance('key-only-for-its-request', fn, 'LL_ENC_REQ clears the "LL_START_ENC_REQ was sent" flag of an earlier request', okn,
+                     '' if okn else 'LL_ENC_REQ (known key) .. LL_ENC_REQ (unknown key, rejected) .. LL_START_ENC_RSP: the flag set for the first request is still set, the response is accepted and the link counts as encrypted '
+                     'although the request in force was rejected (and the cipher was set up with the all zero key)', node=req_sites[0] if req_sites else None, key='enc_req restarts')
         for name in ('LL_PAUSE_ENC_REQ', 'LL_PAUSE_ENC_RSP'):
             cs = [c for c in fn.body.calls('is_encrypted') if c.args() and cval(c.args()[0]) == 0 and any(op == '==' and is_name(l, 'opcode') and not isinstance(r, int) and strip_casts(r).n == name for l, op, r in guard_atoms(fn, c))]
             chk.instance('pause-and-reset-unencrypt', fn, name + ' -> is_encrypted(false)', len(cs) == 1, '' if len(cs) == 1 else 'pausing encryption leaves the link reported as encrypted', key=name)
